@@ -13,7 +13,12 @@
       wins, repeated fields append, a second occurrence of a singular message
       continues parsing INTO the first, a oneof member replaces the current
       member unless it is the same message-typed member (then it continues);
-      the [required] check runs on the final value, as proto.Unmarshal does;
+      the [required] check is protobuf-go's: a fast "initialized" flag computed
+      per parse call, and proto.CheckInitialized on the final value only when
+      the fast flag is false (section 6) — the fast flag does not see inside the
+      oneof members Op.unary / Op.Binary, so an OpUnary / OpBinary without its
+      required kind gets through proto.Unmarshal with a nil Kind (which the
+      converters must, and since /repo 50f7d92 do, test: [nil_kind_outcome]);
    3. conversions pb level -> D level with the rejections of the converters.
 
    Every field NUMBER is read from Generated.proto_schema by name ([fnum]).
@@ -87,78 +92,83 @@ Fixpoint splitN (n : N) (bs : bytes) {struct bs} : option (bytes * bytes) :=
 Definition valid_fnum (num : N) : bool := negb (num =? 0) && (num <? two29).
 
 (* protowire.ConsumeFieldValue on a start-group tag: consume fields up to the
-   matching end-group tag; returns the rest *)
+   matching end-group tag; returns the rest.  [rec] is the function itself *)
+Definition skip_body (rec : N -> bytes -> option bytes) (num : N) (bs : bytes) : option bytes :=
+  match decode_varint bs with
+  | None => None
+  | Some (tag, r) =>
+    let n := tag / 8 in
+    if negb (valid_fnum n) then None else
+    match tag mod 8 with
+    | 0 => match decode_varint r with Some (_, r') => rec num r' | None => None end
+    | 1 => match splitN 8 r with Some (_, r') => rec num r' | None => None end
+    | 2 => match decode_varint r with
+           | Some (len, r1) =>
+               match splitN len r1 with Some (_, r') => rec num r' | None => None end
+           | None => None
+           end
+    | 3 => match rec n r with Some r' => rec num r' | None => None end
+    | 4 => if n =? num then Some r else None
+    | 5 => match splitN 4 r with Some (_, r') => rec num r' | None => None end
+    | _ => None
+    end
+  end.
 Fixpoint skip_group (fuel : nat) (num : N) (bs : bytes) {struct fuel} : option bytes :=
   match fuel with
   | O => None
-  | S f =>
-    match decode_varint bs with
-    | None => None
-    | Some (tag, r) =>
-      let n := tag / 8 in
-      if negb (valid_fnum n) then None else
-      match tag mod 8 with
-      | 0 => match decode_varint r with Some (_, r') => skip_group f num r' | None => None end
-      | 1 => match splitN 8 r with Some (_, r') => skip_group f num r' | None => None end
-      | 2 => match decode_varint r with
-             | Some (len, r1) =>
-                 match splitN len r1 with Some (_, r') => skip_group f num r' | None => None end
-             | None => None
-             end
-      | 3 => match skip_group f n r with Some r' => skip_group f num r' | None => None end
-      | 4 => if n =? num then Some r else None
-      | 5 => match splitN 4 r with Some (_, r') => skip_group f num r' | None => None end
-      | _ => None
-      end
-    end
+  | S f => skip_body (skip_group f) num bs
   end.
 
 Definition cons_opt {A} (x : A) (o : option (list A)) : option (list A) :=
   match o with Some l => Some (x :: l) | None => None end.
 
-(* the field loop of impl's MessageInfo.unmarshalPointer, before any
-   schema knowledge: field numbers in [1, 2^29), wire types 0 1 2 5 kept,
-   groups (3) consumed and dropped, a stray end-group (4) and 6, 7 are errors *)
+(* one iteration of the field loop of impl's MessageInfo.unmarshalPointer, before
+   any schema knowledge: field numbers in [1, 2^29), wire types 0 1 2 5 kept,
+   groups (3) consumed and dropped, a stray end-group (4) and 6, 7 are errors.
+   [rec] decodes the rest, [skip] consumes a group *)
+Definition decode_body (rec : bytes -> option (list wfield)) (skip : N -> bytes -> option bytes)
+    (bs : bytes) : option (list wfield) :=
+  match decode_varint bs with
+  | None => None
+  | Some (tag, r) =>
+    let num := tag / 8 in
+    if negb (valid_fnum num) then None else
+    match tag mod 8 with
+    | 0 => match decode_varint r with
+           | Some (v, r') => cons_opt (num, WVarint v) (rec r')
+           | None => None
+           end
+    | 1 => match splitN 8 r with
+           | Some (p, r') => cons_opt (num, WFixed64 p) (rec r')
+           | None => None
+           end
+    | 2 => match decode_varint r with
+           | Some (len, r1) =>
+               match splitN len r1 with
+               | Some (p, r') => cons_opt (num, WBytes p) (rec r')
+               | None => None
+               end
+           | None => None
+           end
+    | 3 => match skip num r with
+           | Some r' => rec r'
+           | None => None
+           end
+    | 5 => match splitN 4 r with
+           | Some (p, r') => cons_opt (num, WFixed32 p) (rec r')
+           | None => None
+           end
+    | _ => None
+    end
+  end.
+
 Fixpoint decode_fields_k (fuel : nat) (bs : bytes) {struct fuel} : option (list wfield) :=
   match bs with
   | [] => Some []
   | _ =>
     match fuel with
     | O => None
-    | S f =>
-      match decode_varint bs with
-      | None => None
-      | Some (tag, r) =>
-        let num := tag / 8 in
-        if negb (valid_fnum num) then None else
-        match tag mod 8 with
-        | 0 => match decode_varint r with
-               | Some (v, r') => cons_opt (num, WVarint v) (decode_fields_k f r')
-               | None => None
-               end
-        | 1 => match splitN 8 r with
-               | Some (p, r') => cons_opt (num, WFixed64 p) (decode_fields_k f r')
-               | None => None
-               end
-        | 2 => match decode_varint r with
-               | Some (len, r1) =>
-                   match splitN len r1 with
-                   | Some (p, r') => cons_opt (num, WBytes p) (decode_fields_k f r')
-                   | None => None
-                   end
-               | None => None
-               end
-        | 3 => match skip_group f num r with
-               | Some r' => decode_fields_k f r'
-               | None => None
-               end
-        | 5 => match splitN 4 r with
-               | Some (p, r') => cons_opt (num, WFixed32 p) (decode_fields_k f r')
-               | None => None
-               end
-        | _ => None
-        end
-      end
+    | S f => decode_body (decode_fields_k f) (skip_group f) bs
     end
   end.
 (* every iteration consumes at least one byte: this fuel cannot run out
@@ -379,48 +389,55 @@ Inductive pterm :=
 Definition term_set_state (st : pterm) : list pterm :=
   match st with PTset l => l | _ => [] end.
 
+(* one field of a TermSet; [rec] parses a nested TermV2 *)
+Definition step_termset (rec : pterm -> list wfield -> option pterm) (acc : list pterm)
+    (g : wfield) : option (list pterm) :=
+  let '(m, w) := g in
+  if m =? fn_termset_set then
+    match w with
+    | WBytes q =>
+        match sub q (rec PTnone) with
+        | Some t => Some (acc ++ [t])
+        | None => None
+        end
+    | _ => Some acc
+    end
+  else Some acc.
+
+(* one field of a TermV2: every member replaces the current one, except that
+   a [set] after a [set] continues the same TermSet *)
+Definition step_term (rec : pterm -> list wfield -> option pterm) (st : pterm) (f : wfield)
+    : option pterm :=
+  let '(n, v) := f in
+  if n =? fn_term_variable then
+    match v with WVarint x => Some (PTvar (u32 x)) | _ => Some st end
+  else if n =? fn_term_integer then
+    match v with WVarint x => Some (PTint (to_int64 x)) | _ => Some st end
+  else if n =? fn_term_string then
+    match v with WVarint x => Some (PTstr x) | _ => Some st end
+  else if n =? fn_term_date then
+    match v with WVarint x => Some (PTdate x) | _ => Some st end
+  else if n =? fn_term_bytes then
+    match v with WBytes b => Some (PTbytes b) | _ => Some st end
+  else if n =? fn_term_bool then
+    match v with WVarint x => Some (PTbool (dec_bool x)) | _ => Some st end
+  else if n =? fn_term_set then
+    match v with
+    | WBytes p =>
+        match sub p (fun sfs => fold_opt (step_termset rec) sfs (term_set_state st)) with
+        | Some l => Some (PTset l)
+        | None => None
+        end
+    | _ => Some st
+    end
+  else Some st.
+
 (* [d] bounds the nesting depth of TermV2 inside TermSet inside TermV2 ...;
    callers pass more than the number of bytes at hand *)
 Fixpoint p_term (d : nat) (st : pterm) (fs : list wfield) {struct d} : option pterm :=
   match d with
   | O => None
-  | S d' =>
-    fold_opt (fun st f =>
-      let '(n, v) := f in
-      if n =? fn_term_variable then
-        match v with WVarint x => Some (PTvar (u32 x)) | _ => Some st end
-      else if n =? fn_term_integer then
-        match v with WVarint x => Some (PTint (to_int64 x)) | _ => Some st end
-      else if n =? fn_term_string then
-        match v with WVarint x => Some (PTstr x) | _ => Some st end
-      else if n =? fn_term_date then
-        match v with WVarint x => Some (PTdate x) | _ => Some st end
-      else if n =? fn_term_bytes then
-        match v with WBytes b => Some (PTbytes b) | _ => Some st end
-      else if n =? fn_term_bool then
-        match v with WVarint x => Some (PTbool (dec_bool x)) | _ => Some st end
-      else if n =? fn_term_set then
-        match v with
-        | WBytes p =>
-          sub p (fun sfs =>
-            match fold_opt (fun acc g =>
-                    let '(m, w) := g in
-                    if m =? fn_termset_set then
-                      match w with
-                      | WBytes q =>
-                          match sub q (p_term d' PTnone) with
-                          | Some t => Some (acc ++ [t])
-                          | None => None
-                          end
-                      | _ => Some acc
-                      end
-                    else Some acc) sfs (term_set_state st) with
-            | Some l => Some (PTset l)
-            | None => None
-            end)
-        | _ => Some st
-        end
-      else Some st) fs st
+  | S d' => fold_opt (step_term (p_term d')) fs st
   end.
 
 (* message PredicateV2 *)
@@ -884,6 +901,64 @@ Definition req_biscuit (b : pbiscuit) : bool :=
   match pbi_auth b with Some a => req_sblock a | None => false end &&
   forallb req_sblock (pbi_blocks b) && is_some (pbi_proof b).
 
+(* protobuf-go's fast path (impl/decode.go unmarshalPointer): every parse call
+   reports "initialized" iff it saw, in THIS call, each of its own required
+   fields with the right wire type, and every sub-call reached through a field
+   whose coder has an isInit function reported initialized.  isInit exists on
+   message-typed fields whose message type can be uninitialized, and, for a
+   oneof, only on the FIRST field of the oneof (codec_field.go
+   initOneofFieldCoders): Op.value has it, Op.unary and Op.Binary do not, so an
+   Op call always reports initialized.  The flag is a function of the field
+   list alone, not of the merge state. *)
+Definition has_varint (fn : N) (fs : list wfield) : bool :=
+  existsb (fun f => match f with (n, WVarint _) => n =? fn | _ => false end) fs.
+Definition has_bytes (fn : N) (fs : list wfield) : bool :=
+  existsb (fun f => match f with (n, WBytes _) => n =? fn | _ => false end) fs.
+Definition all_sub (fn : N) (k : list wfield -> bool) (fs : list wfield) : bool :=
+  forallb (fun f => match f with
+                    | (n, WBytes p) =>
+                        if n =? fn then
+                          match decode_fields p with Some sfs => k sfs | None => false end
+                        else true
+                    | _ => true
+                    end) fs.
+
+Definition fast_pred (fs : list wfield) : bool := has_varint fn_pred_name fs.
+Definition fast_fact (fs : list wfield) : bool :=
+  has_bytes fn_fact_predicate fs && all_sub fn_fact_predicate fast_pred fs.
+Definition fast_rule (fs : list wfield) : bool :=
+  has_bytes fn_rule_head fs && all_sub fn_rule_head fast_pred fs &&
+  all_sub fn_rule_body fast_pred fs.
+Definition fast_check (fs : list wfield) : bool := all_sub fn_check_queries fast_rule fs.
+Definition fast_block (fs : list wfield) : bool :=
+  all_sub fn_block_facts fast_fact fs && all_sub fn_block_rules fast_rule fs &&
+  all_sub fn_block_checks fast_check fs.
+Definition fast_policy (fs : list wfield) : bool :=
+  has_varint fn_policy_kind fs && all_sub fn_policy_queries fast_rule fs.
+Definition fast_policies (fs : list wfield) : bool :=
+  all_sub fn_ap_facts fast_fact fs && all_sub fn_ap_rules fast_rule fs &&
+  all_sub fn_ap_checks fast_check fs && all_sub fn_ap_policies fast_policy fs.
+Definition fast_pubkey (fs : list wfield) : bool :=
+  has_varint fn_pk_algorithm fs && has_bytes fn_pk_key fs.
+Definition fast_sblock (fs : list wfield) : bool :=
+  has_bytes fn_sb_block fs && has_bytes fn_sb_nextKey fs && has_bytes fn_sb_signature fs &&
+  all_sub fn_sb_nextKey fast_pubkey fs.
+Definition fast_biscuit (fs : list wfield) : bool :=
+  has_bytes fn_biscuit_authority fs && has_bytes fn_biscuit_proof fs &&
+  all_sub fn_biscuit_authority fast_sblock fs && all_sub fn_biscuit_blocks fast_sblock fs.
+
+(* proto.Unmarshal: wire errors, then "fast flag or CheckInitialized" *)
+Definition unmarshal_msg {X : Type} (p : list wfield -> option X) (req : X -> bool)
+    (fast : list wfield -> bool) (bs : bytes) : res X :=
+  match decode_fields bs with
+  | None => Err EWire
+  | Some fs =>
+      match p fs with
+      | None => Err EWire
+      | Some x => if req x || fast fs then Ok x else Err EWire
+      end
+  end.
+
 (* ------------------------------------------------------------------ *)
 (** * 7. pb level -> D level (converters_v2.go, converters.go) *)
 
@@ -927,7 +1002,14 @@ Definition conv_term (t : pterm) : res dterm :=
   | _ => do a <- conv_atom t; Ok (DA a)
   end.
 
-(* a missing required field cannot reach the converters (EWire before) *)
+(* protoExprUnaryToTokenExprUnary / protoExprBinaryToTokenExprBinary on a nil
+   Kind: since /repo 50f7d92 "if op.Kind == nil { return nil, errors.New(...) }"
+   before the switch.  Before that commit `switch *op.Kind` dereferenced nil
+   (then: [Panic 2]). *)
+Definition nil_kind_outcome {A : Type} : res A := Err EConvert.
+
+(* apart from the two kinds above, a missing required field cannot reach the
+   converters (EWire before) *)
 Definition conv_pred (p : ppred) : res dpred :=
   do ts <- mapM conv_term (pp_terms p);
   match pp_name p with
@@ -942,7 +1024,7 @@ Definition conv_op (o : pop) : res dop :=
   | POval t => do t' <- conv_term t; Ok (DOVal t')
   | POun (Some k) => match kind_to_unop k with Some u => Ok (DOUn u) | None => Err EConvert end
   | PObin (Some k) => match kind_to_binop k with Some b => Ok (DOBin b) | None => Err EConvert end
-  | POun None | PObin None => Err EWire
+  | POun None | PObin None => nil_kind_outcome
   end.
 Definition conv_expr (e : pexpr) : res dexpr := mapM conv_op e.
 Definition conv_rule (r : prule) : res drule :=
@@ -974,10 +1056,7 @@ Definition depth_for (bs : bytes) : nat := S (S (length bs)).
 
 (* proto.Unmarshal into pb.Block *)
 Definition parse_block (bs : bytes) : res pblock :=
-  match sub bs (p_block (depth_for bs) init_block) with
-  | Some b => if req_block b then Ok b else Err EWire
-  | None => Err EWire
-  end.
+  unmarshal_msg (p_block (depth_for bs) init_block) req_block fast_block bs.
 
 Definition dec_block (bs : bytes) : res dblock :=
   do b <- parse_block bs; conv_block b.
@@ -1079,11 +1158,11 @@ Definition conv_biscuit (b : pbiscuit) : res container :=
   | _, _ => Err EWire
   end.
 
+(* proto.Unmarshal into pb.Biscuit *)
+Definition parse_biscuit (bs : bytes) : res pbiscuit :=
+  unmarshal_msg (p_biscuit init_biscuit) req_biscuit fast_biscuit bs.
 Definition dec_container (bs : bytes) : res container :=
-  match sub bs (p_biscuit init_biscuit) with
-  | Some b => if req_biscuit b then conv_biscuit b else Err EWire
-  | None => Err EWire
-  end.
+  do b <- parse_biscuit bs; conv_biscuit b.
 
 Definition fields_sblock (s : sblock) : list wfield :=
   [ fb fn_sb_block (sb_block s);
@@ -1116,10 +1195,7 @@ Record policies := {
 (* proto.Unmarshal into pb.AuthorizerPolicies; exposed so that a caller can
    interleave the conversions with its own steps as loadPoliciesV2 does *)
 Definition parse_policies (bs : bytes) : res ppolicies :=
-  match sub bs (p_policies (depth_for bs) init_policies) with
-  | Some a => if req_policies a then Ok a else Err EWire
-  | None => Err EWire
-  end.
+  unmarshal_msg (p_policies (depth_for bs) init_policies) req_policies fast_policies bs.
 
 Definition conv_policy (p : ppolicy) : res (N * list drule) :=
   match ppo_kind p with
